@@ -365,6 +365,10 @@ func (s *controlledSelector) shouldSwitchSelectedPair(pair, selectedPair *Candid
 		s.log.Debugf("Accepting renomination to pair %s (nomination value: %d)", pair, *nominationValue)
 
 		return true
+	case s.lastNomination != nil:
+		// A plain nomination ranks below every nomination value: once a renomination
+		// has been accepted, a late plain nomination must not undo it.
+		return false
 	}
 
 	// Standard ICE nomination without renomination - apply priority rules
@@ -456,6 +460,10 @@ func (s *controlledSelector) HandleSuccessResponse(
 			if selectedPair != pair && s.lastNomination != nil && *value == *s.lastNomination {
 				s.agent.setSelectedPair(pair)
 			}
+		} else if selectedPair != nil && s.lastNomination != nil {
+			// The plain nomination was deferred before a renomination was accepted:
+			// the renomination wins.
+			s.log.Tracef("Ignore deferred plain nomination of %s, renomination accepted meanwhile", pair)
 		} else if selectedPair == nil ||
 			(selectedPair != pair &&
 				(!s.agent.needsToCheckPriorityOnNominated() || selectedPair.priority() <= pair.priority())) {
